@@ -410,6 +410,16 @@ func (e *endpoint) Write(p tcpip.Payload, opts tcpip.WriteOptions) (uintptr, <-c
 		return 0, nil, err
 	}
 
+	// The datagram must fit the 16-bit length fields of UDP and of the IP
+	// header it travels in.
+	maxPayload := math.MaxUint16 - header.UDPMinimumSize
+	if route.NetProto == header.IPv4ProtocolNumber {
+		maxPayload -= header.IPv4MinimumSize
+	}
+	if len(v) > maxPayload {
+		return 0, nil, tcpip.ErrMessageTooLong
+	}
+
 	ttl := route.DefaultTTL()
 	// 如果是多播地址，设置ttl
 	if header.IsV4MulticastAddress(route.RemoteAddress) || header.IsV6MulticastAddress(route.RemoteAddress) {
